@@ -703,11 +703,17 @@ func childMain(h *Harness, reqFile string) int {
 // CallReference runs this binary in reference mode with req on stdin and
 // returns what it wrote.
 func CallReference(args map[string]string, tier string, req []byte) ([]byte, error) {
+	return CallReferenceBin(os.Args[0], args, tier, req)
+}
+
+// CallReferenceBin is CallReference with another binary of the same harness
+// (for instance one built against the uninstrumented tree).
+func CallReferenceBin(bin string, args map[string]string, tier string, req []byte) ([]byte, error) {
 	argv := []string{"-reference", "-tier", tier}
 	for k, v := range args {
 		argv = append(argv, "-arg", k+"="+v)
 	}
-	cmd := exec.Command(os.Args[0], argv...)
+	cmd := exec.Command(bin, argv...)
 	cmd.Stdin = bytes.NewReader(req)
 	var out, errb bytes.Buffer
 	cmd.Stdout, cmd.Stderr = &out, &errb
